@@ -611,9 +611,10 @@ Definition pfn_ok (v : str) : bool :=
 Definition pc_ok (n : str) : bool :=
   vok n && pval_ok (normalize (s_colon ++ n))
   && negb (is_legacy (normalize (s_colon ++ n))).
-Definition fn_ok (f : str) : bool := vok f && negb (is_not_fn f) && pfn_ok (normalize (s_colon ++ f)).
+Definition fn_ok (f : str) : bool :=
+  ends_with s_lparen f && vok f && negb (is_not_fn f) && pfn_ok (normalize (s_colon ++ f)).
 Definition notw_ok (w : str) : bool :=
-  vok w && str_eqb (normalize w) s_not && str_eqb (normalize (s_colon ++ w)) (s_colon ++ s_not).
+  ends_with s_lparen w && vok w && str_eqb (normalize w) s_not && str_eqb (normalize (s_colon ++ w)) (s_colon ++ s_not).
 Definition arg_ok (a : arg) : bool :=
   match a with
   | ArgNum v | ArgDim v | ArgStr v | ArgIdent v => vok v
@@ -637,7 +638,7 @@ Definition pelem_ok (e : pelem) : bool :=
   | PE true n None => vok n && pval_ok (normalize (s_colon2 ++ n))
   | PE false n None => vok n && pval_ok (normalize (s_colon ++ n))
                        && is_legacy (normalize (s_colon ++ n))
-  | PE true f (Some args) => vok f && pfn_ok (normalize (s_colon2 ++ f)) && args_ok args
+  | PE true f (Some args) => ends_with s_lparen f && vok f && pfn_ok (normalize (s_colon2 ++ f)) && args_ok args
   | PE false f (Some args) => false          (* there is no legacy functional pseudo-element *)
   end.
 Definition compound_empty (c : compound) : bool :=
